@@ -152,6 +152,12 @@ func (s *Swarm[T]) Ask(ctx context.Context, resp []byte, dst Addr[T], data p2p.I
 			return err
 		}
 		defer stream.Close()
+		// deadlines only cover contexts that have one: also give up when the context is cancelled.
+		stop := context.AfterFunc(ctx, func() {
+			stream.CancelRead(1)
+			stream.CancelWrite(1)
+		})
+		defer stop()
 
 		log.Debug("opened bidi-stream", logctx.Any("stream-id", stream.StreamID()))
 		// deadlines
@@ -169,6 +175,9 @@ func (s *Swarm[T]) Ask(ctx context.Context, resp []byte, dst Addr[T], data p2p.I
 		}
 		log.Debug("ask request sent")
 		n, err = readFrame(stream, resp, s.mtu)
+		if err != nil && ctx.Err() != nil {
+			return ctx.Err()
+		}
 		return err
 	}); err != nil {
 		return 0, err
